@@ -20,6 +20,27 @@ MULTIPLE_ERRORS = 6
 OWN = ['C01', 'C06']
 OWN_CTX = ['C01', 'C06', 'C20']
 
+# ---- where the PROVED contracts differ from the sentences B-cfi_unwind assumes (all untagged helper clauses; every tagged clause is
+#      taken over unchanged).  (item label, fn) -> (requires added, ensures dropped, ensures added).  Used here and by the link check
+#      batches/cfi_uctx_link.py, which re-verifies everything B-cfi_unwind verifies on top of exactly these contracts.
+DELTAS = {
+    ('RegisterRuleMap', 'set'): (['old(self).inv()'], [], ['final(self).inv()']),
+    ('RegisterRuleMap', 'clear'): (['old(self).inv()'], [], ['final(self).inv()']),
+    ('UnwindContext', 'row'): ([], [], ['res.inv()']),
+    ('UnwindContext', 'row_mut'): ([], ['final(self).repr_ok()'], ['res.inv()', 'final(res).inv() ==> final(self).repr_ok()']),
+    ('UnwindContext', 'get_initial_rule'): (['self.wf()'], [], []),
+    ('UnwindTable', 'next_row'): ([], [], ['final(self).g_fctx() == old(self).g_fctx()']),
+}
+
+
+def with_delta(label, name, c):
+    """contract record c of cfi_unwind with the delta of (label, name) applied"""
+    req, drop, add = DELTAS.get((label, name), ([], [], []))
+    ens = [e for e in c['ensures'] if e not in drop]
+    if len(ens) != len(c['ensures']) - len(drop):
+        raise Lost(f'cfi_unwind.py: clause to replace not found in {label}::{name}')
+    return dict(requires=list(c['requires']) + list(req), ensures=ens + list(add))
+
 
 # ----------------------------------------------------------------------------------------------------------------------
 # 0. the assumed contracts of B-cfi_unwind, read from its source
@@ -336,7 +357,7 @@ def populate_rule_map(ctx, sk, cfi, C, M):
                before=[('return Some(', 'proof { assert(rules_first_at(self.rules.view(), register, verif_it.index@ as int)); lemma_rules_get(self.rules.view(), register, verif_it.index@ as int); }'),
                        ('None\n', 'proof { lemma_rules_miss(self.rules.view(), register); }')])
     c = need(C, ('rrm', 'clear'))
-    rrm.splice('clear', ret='res', canary=True, requires=c['requires'] + ['old(self).inv()'], ensures=c['ensures'] + ['final(self).inv()'],
+    rrm.splice('clear', ret='res', canary=True, **with_delta('RegisterRuleMap', 'clear', c),
                loops={0: '''invariant_except_break
                 idx is None, verif_n + verif_iter.remaining().len() == verif_s.len(), verif_n <= verif_s.len(), verif_s.len() <= usize::MAX,
                 forall|j: int| 0 <= j < verif_iter.remaining().len() ==> *(#[trigger] verif_iter.remaining()[j]) == verif_s[verif_n + j],
@@ -354,7 +375,7 @@ def populate_rule_map(ctx, sk, cfi, C, M):
     push_anchor = re.search(r'self\s*\.rules\s*\.try_push\(\(register, rule\)\)', rrm.text)
     if not push_anchor:
         raise Lost('RegisterRuleMap::set: try_push anchor')
-    rrm.splice('set', ret='res', canary=True, requires=s['requires'] + ['old(self).inv()'], ensures=s['ensures'] + ['final(self).inv()'],
+    rrm.splice('set', ret='res', canary=True, **with_delta('RegisterRuleMap', 'set', s),
                loops={0: SET_INV}, attrs='#[verifier::loop_isolation(false)]\n    #[verifier::allow_complex_invariants]',
                before=[('let verif_slice = &mut *self.rules;', 'let ghost verif_os = self.rules.view();\n        ' + SET_PRE),
                        ('let mut verif_iter = verif_slice.iter_mut();', 'let ghost verif_fs = final(verif_slice)@;'),
@@ -363,6 +384,17 @@ def populate_rule_map(ctx, sk, cfi, C, M):
                       ('let old_rule = &mut verif_entry.1;', SET_STEP)])
     rrm.own(OWN)
     sk.add('read::cfi', rrm)
+    # PartialEq::eq: real text, safety obligations only (no panic, no out-of-bounds; `for` loops over slices terminate).  The
+    # functional clause `res <==> self.view() == rhs.view()` is NOT stated: it would have to be relative to the (abstract) equality
+    # of a generic T: ReaderOffset inside RegisterRule<T>; vstd's trait postcondition of `eq` is switched off by obeys_eq_spec() = false.
+    sk.add('read::cfi', '''impl<T, S> vstd::std_specs::cmp::PartialEqSpecImpl for RegisterRuleMap<T, S>
+where T: ReaderOffset + PartialEq, S: UnwindContextStorage<T> {
+    open spec fn obeys_eq_spec() -> bool { false }
+    open spec fn eq_spec(&self, other: &Self) -> bool { true }
+}''', label='RegisterRuleMap-PartialEqSpec')
+    pe = cfi.item(r'^impl<T, S> PartialEq for RegisterRuleMap<T, S>', label='RegisterRuleMap-PartialEq').clean()
+    pe.own(['C01'])
+    sk.add('read::cfi', pe)
 
 
 # ----------------------------------------------------------------------------------------------------------------------
@@ -382,7 +414,7 @@ def populate_row(ctx, sk, cfi, C, M):
     row = cfi.item(r'^impl<T, S> UnwindTableRow<T, S>', label='UnwindTableRow')
     obs = ['start_address', 'end_address', 'contains', 'saved_args_size', 'cfa', 'register']
     row.keep_only(['is_default'] + obs).clean()
-    row.insert_members(need(M, 'row') + '\n    /// the rule map of this row is well formed\n    pub closed spec fn inv(&self) -> bool { self.registers.inv() }')
+    row.insert_members(need(M, 'row') + ROW_GHOST_EXTRA)
     row.splice('is_default', ret='res', ensures=[
         f'[C20:row-is-default] res == (self.abs().start == 0 && self.abs().end == 0 && self.abs().cfa == {DEFAULT_CFA} '
         '&& self.abs().rules == Map::<Register, RegisterRule<T>>::empty())'])
@@ -404,7 +436,11 @@ UNWIND_SECTION_MODEL = """
 pub trait UnwindSection<R: Reader>: Clone + Debug {}
 """
 
-NEXT_ROW_SAME_CTX = 'final(self).g_fctx() == old(self).g_fctx()'
+
+
+UT_GHOST_EXTRA = ('\n    /// the value the borrowed context will have when this table gives it back\n'
+                  '    #[verifier::prophetic] pub closed spec fn g_fctx(&self) -> UnwindContext<R::Offset, S> { *final(self.ctx) }')
+ROW_GHOST_EXTRA = '\n    /// the rule map of this row is well formed\n    pub closed spec fn inv(&self) -> bool { self.registers.inv() }'
 
 
 def wrapping_model():
@@ -440,11 +476,10 @@ def populate_initialize_env(ctx, sk, cfi, C, M):
     sk.add('read::cfi', cfi.item(r"^pub struct UnwindTable<'a, 'ctx, R, S = StoreOnHeap>", with_attrs=False).clean(offset=False, rejrec=['R', 'S']))
     ut = cfi.item(r"^impl<'a, 'ctx, R, S> UnwindTable<'a, 'ctx, R, S>", label='UnwindTable')
     ut.keep_only(['new_for_cie', 'next_row']).extbody(['next_row']).clean(offset=False)
-    ut.insert_members(need(M, 'ut') + '\n    /// the value the borrowed context will have when this table gives it back\n'
-                      '    #[verifier::prophetic] pub closed spec fn g_fctx(&self) -> UnwindContext<R::Offset, S> { *final(self.ctx) }')
+    ut.insert_members(need(M, 'ut') + UT_GHOST_EXTRA)
     nr = need(C, ('ut', 'next_row'))
     # the one sentence added to next_row's (verified-elsewhere) contract: it never re-seats the context reference
-    ut.splice('next_row', ret='res', requires=nr['requires'], ensures=nr['ensures'] + [NEXT_ROW_SAME_CTX])
+    ut.splice('next_row', ret='res', **with_delta('UnwindTable', 'next_row', nr))
     ut.splice('new_for_cie', ret='res',
               requires=['old(ctx).wf()', '[C01:address-size-validated] valid_address_size(cie.address_size)'],
               ensures=['res.g_wf()', '[C06:cie-table-starts-from-context] res.g_ctx() == old(ctx).abs()', '!res.g_done()', 'res.g_next() == 0',
@@ -481,12 +516,8 @@ def populate_context(ctx, sk, cfi, C, M):
         raise Lost('cfi_unwind.py: UnwindContext::repr_ok')
     uc.insert_members(ghost.replace(REPR_OLD, REPR_NEW))
 
-    def contract(name, extra_req=(), extra_ens=(), drop_ens=()):
-        c = need(C, ('uc', name))
-        ens = [e for e in c['ensures'] if e not in drop_ens]
-        if len(ens) != len(c['ensures']) - len(drop_ens):
-            raise Lost(f'cfi_unwind.py: clause to replace not found in {name}')
-        return dict(requires=c['requires'] + list(extra_req), ensures=ens + list(extra_ens))
+    def contract(name):
+        return with_delta('UnwindContext', name, need(C, ('uc', name)))
 
     uc.splice('new_in', ret='res', canary=True, **contract('new_in'))
     # initialize: NO precondition on the state of the context (only the static storage capacity and the validated address size of
@@ -494,21 +525,20 @@ def populate_context(ctx, sk, cfi, C, M):
     # only be discharged from reset()'s postcondition, and the tagged mid-point assertion pins the state the CIE table starts from.
     uc.splice('initialize', ret='res',
               requires=['[C06:storage-nonempty] Self::max_rows() >= 1', '[C01:address-size-validated] valid_address_size(cie.address_size)'],
-              ensures=['[C06:initialize-saves-initial-rules] res is Ok ==> final(self).wf() && final(self).abs().initial is Some'],
+              ensures=['[C06:initialize-saves-initial-rules] res is Ok ==> final(self).wf() && final(self).abs().initial == Some(final(self).abs().top().rules)'],
               loops={0: '''invariant
                 table.g_wf(), table.g_ctx().initial is None, *final(table.ctx) == verif_f0,
             decreases table.g_inp().len, (if table.g_done() { 0nat } else { 1nat })'''},
-              after=[('self.reset();', 'assert(self.abs() == ACtx::<T>::fresh() && self.wf()); // [C20:initialize-resets-first]'),
-                     ('let mut table = UnwindTable::new_for_cie(section, bases, self, cie);', 'let ghost verif_f0 = *final(table.ctx);')],
+              before=[('let mut table = UnwindTable::new_for_cie(', 'assert(self.abs() == ACtx::<T>::fresh() && self.wf()); // [C20:initialize-resets-first]')],
+              after=[('let mut table = UnwindTable::new_for_cie(section, bases, self, cie);', 'let ghost verif_f0 = *final(table.ctx);')],
               attrs='#[verifier::loop_isolation(false)]', owners=OWN_CTX, canary=True)
     uc.splice('reset', canary=True, **contract('reset'),
               after=[('self.is_initialized = false;', f'proof {{ assert({ROWS}.map_values({ABSF}) =~= seq![{ROWS}[0].abs()]); }}')])
-    uc.splice('row', ret='res', canary=True, **contract('row', extra_ens=['res.inv()']),
+    uc.splice('row', ret='res', canary=True, **contract('row'),
               before=[('self.stack.last().unwrap()', 'proof { broadcast use group_seq_abs; }')])
     # row_mut: the caller may write anything through the returned reference, so the row invariant of the final context is
     # conditional on the final value of that row (cfi_unwind assumes `final(self).repr_ok()` outright, with the length-only repr_ok)
-    uc.splice('row_mut', ret='res', canary=True, **contract('row_mut', drop_ens=['final(self).repr_ok()'],
-                                               extra_ens=['res.inv()', 'final(res).inv() ==> final(self).repr_ok()']),
+    uc.splice('row_mut', ret='res', canary=True, **contract('row_mut'),
               before=[('self.stack.last_mut().unwrap()', 'proof { broadcast use group_seq_abs; }')])
     uc.splice('save_initial_rules', ret='res', canary=True, **contract('save_initial_rules'),
               before=[('crate::verif_assert(!self.is_initialized);', '''proof {
@@ -522,7 +552,7 @@ def populate_context(ctx, sk, cfi, C, M):
         c = need(C, ('uc', f))
         uc.splice(f, ret='res' if f in ('start_address', 'set_register_rule', 'clear_register_rule', 'cfa_mut') else None,
                   requires=c['requires'], ensures=c['ensures'], before=c['before'])
-    uc.splice('get_initial_rule', ret='res', canary=True, **contract('get_initial_rule', extra_req=['self.wf()']))
+    uc.splice('get_initial_rule', ret='res', canary=True, **contract('get_initial_rule'))
     uc.splice('push_row', ret='res', canary=True, **contract('push_row'),
               before=[('let new_row = self.row().clone();', 'proof { broadcast use group_seq_abs; }')])
     uc.splice('pop_row', ret='res', canary=True, **contract('pop_row'),
